@@ -167,6 +167,11 @@ def _collect_inline_segments(
     elif isinstance(element, inline.InlineHTML):
         assert isinstance(element.children, str)
         segments.append((element.children, None))
+    elif isinstance(element, inline.AutoLink):
+        # Autolinks and bare URLs: the URL text is context only and never modified.
+        url_text = element.children[0].children
+        assert isinstance(url_text, str)
+        segments.append((url_text, None))
     elif hasattr(element, "children") and isinstance(element.children, list):  # pyright: ignore
         # Recursive container (Emphasis, StrongEmphasis, Link, Strikethrough, etc.)
         children: list[Element] = element.children  # pyright: ignore
